@@ -9,6 +9,11 @@ L_NOTE = ("Trusted: Lean kernel + {propext, Classical.choice, Quot.sound}; the h
           "histories, an exhaustively enumerated small scope) — that tie is sampling, not proof. Assumed: alignments positive, "
           "layouts below 2^63 (usize wrap-around not modelled).")
 
+V_NOTE = ("Trusted: Lean kernel + standard axioms; slot-machine model of convert.rs tied to the code by channel V (every script of "
+          "length <= 5 (quick) / 6 (thorough) over 8 converter outcomes + random long scripts, four equal-layout and four "
+          "unequal-layout element type pairs, zero-size elements by counts, debug and optimised builds, ledger + counting "
+          "allocator + payload identity). Modelled not verified: Vec::set_len/transmute, catch_unwind; converter contract assumed.")
+
 CLAIMS = {
  "C01": ("Kernel-checked theorem C01_disjoint over the Lean model of builder + all four native strategies: for every request "
          "history with every per-close strategy choice, all data of every variant are pairwise disjoint (induction: layout "
@@ -40,6 +45,15 @@ CLAIMS = {
          "statement (paired variants carry the same data, single id correspondence) is checked by channel L `replay` requests "
          "against the Lean replay model and by an independent oracle on the implementation's output. Full theorem is a goal.", "4 C20", L_NOTE,
          "Lean 4 theorem (partial) + correspondence"),
+ "C08": ("Refinement theorem: the unsafe loop, modelled slot by slot with use-after-move/overwrite/type-confusion as explicit errors, "
+         "equals the plain left-to-right pass for every input length and every converter (tryConvert_refines, three-region "
+         "invariant as a representation function); corollaries C08_result, C08_calls, C08_prev_is_last_output, C08_all_abandoned.", "4 C08", V_NOTE,
+         "Lean 4 refinement theorem (loop invariant by induction) + correspondence, debug and optimised builds"),
+ "C09": ("C09_cleanup (failure at any call: every live output and every unconsumed input dropped exactly once, nothing leaked, "
+         "buffer released, that very error/payload returned, no later call) and C09_no_memory_error, for all lengths, converters "
+         "and failure positions.", "4 C09", V_NOTE, "Lean 4 refinement theorem + correspondence with drop ledger and counting allocator"),
+ "C10": ("C10_refuse / C10_accept: layouts differing in size or alignment are refused before any element is read or the converter "
+         "called, the input dropped normally; equal layouts never refused.", "4 C10", V_NOTE, "Lean 4 theorem + correspondence over a type-pair matrix"),
 }
 PENDING = "check not built yet (build phase in progress); planned per DESIGN.md section 4"
 
